@@ -182,6 +182,7 @@ def run(res: Results, idx: Index, tier: str) -> None:
     n_x = 0
     for mod, prop, rid in ((c06, "C06", "R-C06b"), (c04, "C04", "R-C04b")):
         sub = Results(prop, tier)
+        setattr(sub, "_nested_xref", True)
         mod.run(sub, idx, tier)
         for inst in sub.instances:
             if inst.rule == rid and ("raise" in inst.detail or "reject" in inst.detail or inst.status != "OK"):
